@@ -54,6 +54,17 @@ type openFile struct {
 	f    *os.File
 }
 
+// KeepOpLog makes the shim remember "op path" of every mutating operation (OpLog).
+var KeepOpLog bool
+var opLog []string
+
+// OpLog returns the remembered operations since the last ResetFS.
+func OpLog() []string {
+	fsMu.Lock()
+	defer fsMu.Unlock()
+	return append([]string(nil), opLog...)
+}
+
 // FSOps returns the number of mutating FS operations so far.
 func FSOps() int64 { return fsN.Load() }
 
@@ -88,6 +99,7 @@ func ResetFS() {
 	fsPlan = map[int64]Fault{}
 	rdPlan = map[int64]Fault{}
 	openW = nil
+	opLog = nil
 	frozenProc = map[string]bool{}
 }
 
@@ -100,6 +112,12 @@ func FaultsFired() map[string]int64 {
 		r[k] = v
 	}
 	return r
+}
+
+func procFrozen(proc string) bool {
+	fsMu.Lock()
+	defer fsMu.Unlock()
+	return frozenProc[proc]
 }
 
 // FreezeProc freezes a simulated process: all its later FS operations block forever.
@@ -158,6 +176,9 @@ func hook(op, path string) error {
 	n := fsN.Add(1)
 	Tracef("F %d %s %s %s\n", n, op, relPath(path), CurrentID())
 	fsMu.Lock()
+	if KeepOpLog {
+		opLog = append(opLog, op+" "+relPath(path))
+	}
 	f, ok := fsPlan[n]
 	if ok {
 		faultFired[f.Kind]++
@@ -167,23 +188,18 @@ func hook(op, path string) error {
 		return nil
 	}
 	switch f.Kind {
-	case "crash":
-		tearOpenFiles()
+	case "crash", "freeze":
+		if f.Arg != "notear" {
+			tearOpenFiles()
+		}
 		Tracef("K %d crash before %s %s\n", n, op, relPath(path))
 		if OnCrash != nil {
-			OnCrash(n)
+			// in-process crash of one simulated process: it never runs again
 			FreezeProc(proc)
+			OnCrash(n)
 			blockForever()
 		}
 		KillSelf()
-	case "freeze":
-		tearOpenFiles()
-		Tracef("K %d freeze before %s %s\n", n, op, relPath(path))
-		FreezeProc(proc)
-		if OnCrash != nil {
-			OnCrash(n)
-		}
-		blockForever()
 	case "error":
 		e, ok := errnoByName[f.Arg]
 		if !ok {
